@@ -64,13 +64,13 @@ theorem localsOf_tables {nc2 nc3 : Nat} {l2 l3 : List SLv} {D S : List Lv} (r : 
     | cons x xs => simp [localsOf, hr]
 
 /-- **`write_code`** (fragment `RCodeOk` of the resolved body): the bytes are the encoding of a layout that is legal in
-every later pool (for any bootstrap table: no `invokedynamic` / `Dynamic` constant here) and denotes the method body
-with its labels renamed to instruction indices; no bootstrap method is created -/
+every later pool with every later bootstrap table and denotes the method body with its labels renamed to instruction
+indices; bootstrap rows are only appended -/
 theorem writeCode_spec {c : Code} {p p' : Pool} {bs bs' : List Bsm} {b : Bytes} {lab : Nat → Nat}
-    (hlab : labOf (labelIndex c.insns c.lastLabel) c.insns.length = lab) (hg : Good p)
+    (hlab : labOf (labelIndex c.insns c.lastLabel) c.insns.length = lab) (hg : Good p) (hb : BsOk bs)
     (hok : RCodeOk (relabel lab c)) (h : writeCode c p bs = .ok (b, p', bs')) :
-    bs' = bs ∧ Step p p' ∧ ∃ cl : CodeLayout, b = cl.encode ∧ (∀ bsms, Sound p' (fun rp => cl.Legal rp bsms)) ∧
-      cl.facts = relabel lab c := by
+    (Step p p' ∧ BsExt bs bs' ∧ BsOk bs') ∧ ∃ cl : CodeLayout, b = cl.encode ∧
+      Sound2 p' bs' (fun rp bsms => cl.Legal rp bsms) ∧ cl.facts = relabel lab c := by
   obtain ⟨is, p1, res, eb, p2, smt, p3, as, ab, h1, hres, h2, h3, h4, h5, rfl⟩ := writeCode_inv hlab h
   have hn : (relabel lab c).insns.length = c.insns.length := by simp [relabel]
   -- the conditions of the fragment, on the tree
@@ -90,7 +90,7 @@ theorem writeCode_spec {c : Code} {p p' : Pool} {bs bs' : List Bsm} {b : Bytes} 
     rw [hn] at this
     exact this
   -- the instructions
-  obtain ⟨rfl, s1, rcs, hm, hall, hcps, hbr, hsd⟩ := putInsns_spec c.insns hg (fun e he => (hins e he).1) h1
+  obtain ⟨⟨s1, eb1, ob1⟩, rcs, hm, hall, hcps, hbr, hsd⟩ := putInsns_spec c.insns hg hb (fun e he => (hins e he).1) h1
   have hlen : rcs.length = c.insns.length := by
     have := congrArg List.length hm
     simpa using this
@@ -307,13 +307,13 @@ theorem writeCode_spec {c : Code} {p p' : Pool} {bs bs' : List Bsm} {b : Bytes} 
   have s345 := t23.trans s45
   have s1345 := t1.trans s345
   have sall := t0.trans s1345
-  refine ⟨rfl, s1.trans (s2.trans sall), ⟨c.maxStack, c.maxLocals, sinsnsOf rcs, sexcs, attrs⟩, ?_, ?_, ?_⟩
+  refine ⟨⟨s1.trans (s2.trans sall), eb1, ob1⟩, ⟨c.maxStack, c.maxLocals, sinsnsOf rcs, sexcs, attrs⟩, ?_, ?_, ?_⟩
   · -- the bytes
     simp only [CodeLayout.encode, CodeLayout.pos]
     rw [hbytes, List.length_map, hslen, hend, ← hcodeq]
     simp [List.flatMap, List.append_assoc]
   · -- legality
-    intro bsms q hq
+    intro q bs'' hq hbs
     have hq5 : Ext p' q := hq
     have hq4 : Ext q4 q := hq.of_le t5.le
     have hq3 : Ext q3 q := hq.of_le s45.le
@@ -326,7 +326,7 @@ theorem writeCode_spec {c : Code} {p p' : Pool} {bs bs' : List Bsm} {b : Bytes} 
       refine code_legal (by rw [hend]; exact hpos) (by rw [hend]; exact hsmall) ?_
       intro x hx
       obtain ⟨e, he, hxe⟩ := hrc x hx
-      refine ⟨by rw [hxe]; exact (insnOk_mapT lab e.insn).mpr (hins e he).1, ?_, hcps x hx, hsd x hx q hqp1 bsms, ?_⟩
+      refine ⟨by rw [hxe]; exact (insnOk_mapT lab e.insn).mpr (hins e he).1, ?_, hcps x hx, hsd x hx q bs'' hqp1 hbs, ?_⟩
       · intro op t hop
         rw [hxe] at hop
         obtain ⟨t', hi⟩ := mapT_branch hop
